@@ -88,6 +88,7 @@ func init() {
 			}
 			return cc.c().Const(cc.term(0).W, v), nil
 		},
+		hp + "vEnv32":    func(cc *callCtx) (Value, error) { return cc.c().Var("env", 32), nil },
 		hp + "vSymbolic": func(cc *callCtx) (Value, error) { return cc.c().True, nil },
 		hp + "vUnsupported": func(cc *callCtx) (Value, error) {
 			return nil, unsupported("harness: %s", cc.str(0))
